@@ -73,16 +73,19 @@ theorem range_eq_spec (a b : Int) : rangeTo a b = Spec.rangeTo a b := rangeTo_eq
 theorem select_with_focus_eq_spec {α : Type} (xs : List α) :
     selectWithFocus xs = (Spec.positions xs).map fun t => (t.2, xs.length, t.1) := selectWithFocus_eq xs
 
-/-- fn:index-of on the atomized sequence: the positions of the items `eq` to the search value —
+/-- fn:index-of on the atomized sequence, for every collation `cl` (the default collation of the static
+context in the two-argument form, the named one in the three-argument form): the positions of the
+items `eq` to the search value — strings and xs:untypedAtomic values by the collation,
 numbers after promotion, xs:untypedAtomic as xs:string, non-comparable items (a boolean and a
 number, a string and a number) distinct, NaN equal to nothing, -0 equal to +0. -/
-theorem index_of_eq_spec (xs : Seq) (v : Atom) : indexOf xs v = Spec.indexOf xs v := indexOf_eq xs v
+theorem index_of_eq_spec (cl : Coll) (xs : Seq) (v : Atom) : indexOf cl xs v = Spec.indexOf cl xs v :=
+  indexOf_eq cl xs v
 
 /-- fn:distinct-values: the loop with its NaN flag and its list of keys keeps exactly the items
 that are not equal to an item kept before (NaN equal to NaN, -0 equal to +0, xs:untypedAtomic as
 xs:string, numbers after promotion). -/
-theorem distinct_values_eq_spec (xs : Seq) : distinctValues xs = Spec.distinctValues xs :=
-  distinctValues_eq xs
+theorem distinct_values_eq_spec (cl : Coll) (xs : Seq) : distinctValues cl xs = Spec.distinctValues cl xs :=
+  distinctValues_eq cl xs
 
 /-- fn:sum, one- and two-argument form, on arbitrary items: xs:untypedAtomic items are cast to
 xs:double (FORG0001 for an invalid one), nodes through their string value, then type dispatch,
@@ -127,8 +130,8 @@ example :
 /-- fn:min / fn:max on arbitrary items (atomization, cast of xs:untypedAtomic): dispatch on
 strings / booleans / integers / decimals / doubles, NaN, FORG0006 for mixed kinds; Python's
 `min`/`max` pick the same element as the specification's fold. -/
-theorem min_max_eq_spec (doc : List String) (isMax : Bool) (xs : Seq) :
-    fnMinMax doc isMax xs = Spec.fnMinMax doc isMax xs := fnMinMax_eq doc isMax xs
+theorem min_max_eq_spec (cl : Coll) (doc : List String) (isMax : Bool) (xs : Seq) :
+    fnMinMax cl doc isMax xs = Spec.fnMinMax cl doc isMax xs := fnMinMax_eq cl doc isMax xs
 
 /-- PARTIAL in one hypothesis (monotone rounding, see `Spec.promotionMonotoneOn`).  fn:max / fn:min
 in the wording of F&O §14.4.3 / §14.4.4 for numeric values of which at least one is an xs:double
@@ -138,22 +141,22 @@ xs:double* such that no other converted item is greater (less) — provided the 
 the values at hand.  That holds for every sequence of real doubles because IEEE rounding is monotone;
 this fact about the kernel function `rnd` is not proved: the hypothesis is decidable and the driver
 evaluates it on every fn:max / fn:min that the harness runs (answer field `m`). -/
-theorem min_max_fo_literal (isMax : Bool) (a : Atom) (rest : Seq)
+theorem min_max_fo_literal (cl : Coll) (isMax : Bool) (a : Atom) (rest : Seq)
     (hout : Spec.outsideAgg (a :: rest) = false) (hnum : Spec.allKind .num (a :: rest) = true)
     (hdbl : Spec.anyDouble (a :: rest) = true) (hnan : (a :: rest).any (· == Atom.dbl .nan) = false)
     (hmono : Spec.promotionMonotoneOn (a :: rest) = true) :
-    ∃ r, minMaxCore isMax (a :: rest) = .ok [.dbl r] ∧ Spec.IsExtremeOfConverted isMax (a :: rest) r := by
-  rw [minMaxCore_eq isMax _ hout]
-  exact minMaxCore_fo_literal isMax a rest hout hnum hdbl hnan hmono
+    ∃ r, minMaxCore cl isMax (a :: rest) = .ok [.dbl r] ∧ Spec.IsExtremeOfConverted isMax (a :: rest) r := by
+  rw [minMaxCore_eq cl isMax _ hout]
+  exact minMaxCore_fo_literal cl isMax a rest hout hnum hdbl hnan hmono
 
 /-- **Unconditional** for the values whose promotion is exact (xs:double values and integers up to
 2^53 in magnitude): fn:max / fn:min return an item of the converted sequence such that no other
 converted item is greater (less).  The hypothesis of `min_max_fo_literal` is needed only where
 the promotion rounds (larger integers, xs:decimal values). -/
-theorem min_max_fo_literal_exact (isMax : Bool) (a : Atom) (rest : Seq)
+theorem min_max_fo_literal_exact (cl : Coll) (isMax : Bool) (a : Atom) (rest : Seq)
     (hex : (a :: rest).all exactlyPromotable = true)
     (hdbl : Spec.anyDouble (a :: rest) = true) (hnan : (a :: rest).any (· == Atom.dbl .nan) = false) :
-    ∃ r, minMaxCore isMax (a :: rest) = .ok [.dbl r] ∧ Spec.IsExtremeOfConverted isMax (a :: rest) r := by
+    ∃ r, minMaxCore cl isMax (a :: rest) = .ok [.dbl r] ∧ Spec.IsExtremeOfConverted isMax (a :: rest) r := by
   have hall := List.all_eq_true.mp hex
   have hout : Spec.outsideAgg (a :: rest) = false := by
     unfold Spec.outsideAgg; rw [List.any_eq_false]; intro x hx
@@ -163,7 +166,7 @@ theorem min_max_fo_literal_exact (isMax : Bool) (a : Atom) (rest : Seq)
     unfold Spec.allKind; rw [List.all_eq_true]; intro x hx
     have := hall x hx
     cases x <;> simp_all [exactlyPromotable, Spec.kind]
-  exact min_max_fo_literal isMax a rest hout hnum hdbl hnan (promotionMonotoneOn_of_exact _ hex)
+  exact min_max_fo_literal cl isMax a rest hout hnum hdbl hnan (promotionMonotoneOn_of_exact _ hex)
 
 set_option maxRecDepth 8000 in
 /-- the hypothesis holds on a non-trivial input: `(9007199254740993, 9007199254740992e0, 0.5)` —
@@ -177,9 +180,21 @@ representable xs:double (the harness never produces one); with it the exact comp
 comparison after promotion select different values -/
 example :
     let s : Seq := [.int 1152921504606846977, .dbl (.fin 1152921504606846977 0)]
-    Spec.promotionMonotoneOn s = false ∧ minMaxCore true s = .ok [.dbl (.fin 1152921504606846976 0)] ∧
+    Spec.promotionMonotoneOn s = false ∧ minMaxCore .codepoint true s = .ok [.dbl (.fin 1152921504606846976 0)] ∧
       ¬ (∀ y ∈ s.map Spec.toDouble, D.lt (.fin 1152921504606846976 0) y = false) := by
   decide
+
+/-- test (default collation): under html-ascii-case-insensitive `index-of(('a','A','b'), 'a')` = (1, 2),
+`distinct-values(('a','A','b','é','É'))` = ('a','b','é','É') (only A–Z are folded) and `max(('a','B'))` = 'B';
+under the code-point collation 1, all five values, and 'a'. -/
+example :
+    indexOf .asciiCI [.str "a", .str "A", .str "b"] (.str "a") = [.int 1, .int 2] ∧
+    indexOf .codepoint [.str "a", .str "A", .str "b"] (.str "a") = [.int 1] ∧
+    distinctValues .asciiCI [.str "a", .untyped "A", .str "b", .str "é", .str "É"]
+      = [.str "a", .str "b", .str "é", .str "É"] ∧
+    (distinctValues .codepoint [.str "a", .untyped "A", .str "b", .str "é", .str "É"]).length = 5 ∧
+    fnMinMax .asciiCI [] true [.str "a", .str "B"] = .ok [.str "B"] ∧
+    fnMinMax .codepoint [] true [.str "a", .str "B"] = .ok [.str "a"] := by decide
 
 /-- fn:string-join -/
 theorem string_join_eq_spec (doc : List String) (xs : Seq) (sep : Option Seq) :
@@ -195,8 +210,8 @@ theorem predicate_eq_spec (pos : Nat) (v : Seq) : predicateKeeps pos v = Spec.pr
 
 /-- all one-, two-, three-argument functions at once, including argument conversion errors -/
 theorem apply_eq_spec :
-    (∀ doc f v, applyFn1 doc f v = Spec.applyFn1 Spec.foSum doc f v) ∧
-    (∀ doc f a b, applyFn2 doc f a b = Spec.applyFn2 Spec.foSum doc f a b) ∧
+    (∀ cl doc f v, applyFn1 cl doc f v = Spec.applyFn1 Spec.foSum cl doc f v) ∧
+    (∀ cl doc f a b, applyFn2 cl doc f a b = Spec.applyFn2 Spec.foSum cl doc f a b) ∧
     (∀ f a b c, applyFn3 f a b c = Spec.applyFn3 f a b c) :=
   ⟨applyFn1_eq, applyFn2_eq, applyFn3_eq⟩
 
@@ -377,21 +392,21 @@ theorem predicate_last (S : Expr) (c : Ctx) :
 /-- fn:distinct-values satisfies the constraints of F&O §14.2.1 on every atomized sequence —
 also when `eq` is not transitive on it: the result is a subsequence of the input, (a) no two
 result items are equal, (b) every input item is equal to some result item. -/
-theorem distinct_values_constraints (xs : Seq) (hatom : ∀ z ∈ xs, Spec.kind z ≠ .node) :
-    List.Sublist (distinctValues xs) xs ∧
-    List.Pairwise (fun a b => Spec.sameValue a b = false) (distinctValues xs) ∧
-    (∀ z ∈ xs, ∃ y ∈ distinctValues xs, Spec.sameValue y z = true) := by
+theorem distinct_values_constraints (cl : Coll) (xs : Seq) (hatom : ∀ z ∈ xs, Spec.kind z ≠ .node) :
+    List.Sublist (distinctValues cl xs) xs ∧
+    List.Pairwise (fun a b => Spec.sameValue cl a b = false) (distinctValues cl xs) ∧
+    (∀ z ∈ xs, ∃ y ∈ distinctValues cl xs, Spec.sameValue cl y z = true) := by
   rw [distinctValues_eq]
-  refine ⟨distinctFrom_sublist xs [], distinctFrom_pairwise xs [], ?_⟩
+  refine ⟨distinctFrom_sublist cl xs [], distinctFrom_pairwise cl xs [], ?_⟩
   intro z hz
   unfold Spec.distinctValues
-  simpa using distinctFrom_covers xs hatom [] z hz
+  simpa using distinctFrom_covers cl xs hatom [] z hz
 
 /-- fn:max on a non-empty sequence of integers returns an item of the sequence that is
 greater than or equal to every item -/
 theorem max_integers (n : Int) (ns : List Int) :
-    ∃ m, fnMinMax [] true ((n :: ns).map Atom.int) = .ok [.int m] ∧ m ∈ n :: ns ∧ ∀ y ∈ n :: ns, y ≤ m := by
-  exact ⟨Spec.extremum (fun x y => decide (x < y)) true n ns, fnMinMax_ints [] n ns, extremum_int_max n ns⟩
+    ∃ m, fnMinMax .codepoint [] true ((n :: ns).map Atom.int) = .ok [.int m] ∧ m ∈ n :: ns ∧ ∀ y ∈ n :: ns, y ≤ m := by
+  exact ⟨Spec.extremum (fun x y => decide (x < y)) true n ns, fnMinMax_ints .codepoint [] n ns, extremum_int_max n ns⟩
 
 /-! ## the outcomes that XPath permits -/
 
